@@ -116,6 +116,7 @@ func runC10(c *Ctx) {
 		// rolls memory back; finding D12: UpdateFilteredPolicies whose filter matches nothing adds the new rules
 		// and reports false. After either the adapter and memory are known to differ: comparisons stop.
 		tainted := false
+		storeDupSeen := false
 		cfg.AfterStep = func(c *Ctx, s *Sess, hist []EOp, obs string) {
 			last := hist[len(hist)-1]
 			if len(hist) == 1 {
@@ -139,7 +140,16 @@ func runC10(c *Ctx) {
 				}
 				seenLine[k] = true
 			}
-			if tainted || dupStore {
+			if len(hist) == 1 {
+				storeDupSeen = false
+			}
+			if dupStore {
+				storeDupSeen = true // sticky: removing one of two equal lines leaves a line memory no longer has
+			}
+			if last.Kind == "save" && !dupStore {
+				storeDupSeen = false
+			}
+			if tainted || storeDupSeen {
 				c.Count("comparisons_skipped_findings_D12_D18", 1)
 				return
 			}
@@ -454,6 +464,9 @@ func runC15(c *Ctx) {
 							dup = true // the store holds a line twice (D12)
 						}
 						seenLine[k] = true
+					}
+					if dup {
+						storeTainted = true // sticky until SavePolicy: one of two equal lines may be left behind
 					}
 					if storeTainted {
 						c.Count("peer_comparisons_skipped_findings_D12_D18", 1)
